@@ -131,6 +131,29 @@ Theorem C20_step_appends_at_most_one s s' : step s = Some s' ->
 Proof. exact (step_outputs s s'). Qed.
 Print Assumptions C20_step_appends_at_most_one.
 
+(* accelerator registers 0x7E0-0x7FF (instance: the NullXcel the ex03 harness attaches; modelled from NullXcel.py):
+   a write followed by a read returns the written value, whatever the two register numbers; nothing else changes;
+   only accelerator writes change the accelerator *)
+Theorem C20_xcel_write_then_read s c1 rs1 c2 rd :
+  is_xcelreg c1 = true -> is_xcelreg c2 = true ->
+  exists s1 s2, exec (CSRW c1 rs1) s = Some s1 /\ exec (CSRR rd c2) s1 = Some s2 /\
+    regs s1 = regs s /\ mem s1 = mem s /\ outputs s1 = outputs s /\
+    regs s2 = rset (regs s) rd (wrap32 (rget (regs s) rs1)) /\
+    mem s2 = mem s /\ outputs s2 = outputs s /\ mngr2proc s2 = mngr2proc s /\ xcel s2 = wrap32 (rget (regs s) rs1).
+Proof. exact (xcel_write_then_read s c1 rs1 c2 rd). Qed.
+Print Assumptions C20_xcel_write_then_read.
+
+Theorem C20_xcel_frame i s s' : exec i s = Some s' ->
+  xcel s' = xcel s \/ exists c rs1, i = CSRW c rs1 /\ is_xcelreg c = true /\ xcel s' = wrap32 (rget (regs s) rs1).
+Proof. exact (exec_xcel_frame i s s'). Qed.
+Print Assumptions C20_xcel_frame.
+
+Example C20_xcel_example :
+  is_xcelreg 2016 = true /\ is_xcelreg 2047 = true /\
+  let prog := map encode [CSRR 1 CSR_MNGR2PROC; CSRW 2025 1; CSRR 2 2047; ADD 3 1 2; CSRW CSR_PROC2MNGR 3] in
+  outputs (run 100 (init_state [(512, prog)] [17])) = [34].
+Proof. split; [reflexivity|]. split; [reflexivity|]. vm_compute. reflexivity. Qed.
+
 (* non-vacuity: a well-formed instruction of every format, a program that runs to completion, outputs and memory *)
 Example C20_isa_example :
   wf_instr (BNE 3 4 (-8)) /\ wf_instr (SW 2 3 2047) /\ wf_instr (CSRR 31 CSR_MNGR2PROC) /\
